@@ -19,8 +19,11 @@ META.update({
         "proved: LP data of SimpleContract, Transport, Storage (bounds = rate x dt, costs incl. spread sign rule, holding cost tail sums, level rows, "
         "right-hand sides), the discount factor formula (1+wacc)^(-elapsed years), Asset.make_vector (constant / gridded array through the window's "
         "index / interval data via values_to_grid, x dt if converted) and Timegrid.values_to_grid (loop invariant). Bounded: optimum and dispatch vs "
-        "an independent scipy/HiGHS textbook LP on random portfolios incl. multi-commodity contracts, DST grids, waccs; take periods "
-        "(define_restr is not under contract). 'same data => same optimum' is A6. " + PROOF_NOTE)),
+        "an independent scipy/HiGHS textbook LP on random portfolios incl. multi-commodity contracts, DST grids, waccs; take periods. define_restr from the "
+        "real source (symbolic numbers of periods, mapping rows and steps; three nested loops: row family under a guard, the list of covered rows as a predicate with a "
+        "disjointness obligation, commutative accumulation): one row per period with a covered step, coefficient = sum of the dispatch factors of the covered rows of "
+        "the variable, right-hand side = volume x length of the distinct covered steps / period length, letter as asked; the take drivers of Contract / "
+        "ExtendedTransport append those rows under the right letters. 'same data => same optimum' is A6. " + PROOF_NOTE)),
     'C03': dict(level='proof', assumptions=['A1', 'A2', 'A3', 'A5'], explanation=(
         "proved: the cvxpy problem handed to the solver is the assembled problem (bounds, one constraint per row class with the same mask on A and b, "
         "objective -c@x, boolean declaration, result/status handling, dual bookkeeping, frame), also for the robust target. Solver optimality / "
@@ -44,7 +47,8 @@ META.update({
     'C08': dict(level='other', assumptions=['A2', 'A3', 'A4', 'A5'], explanation=(
         "proved: restricted grid = index-consistent subset of [start,end) (C08.window.*), set_restricted_grid passes the given window / the grid's own, "
         "every dispatch row of the classes under contract lies on it, empty windows are inert for Storage/Contract/Transport/OrderBook/ScaledAsset, no "
-        "spurious raise. Bounded: take periods (define_restr) incl. asset windows reaching beyond the horizon. Known finding D25b. " + PROOF_NOTE)),
+        "spurious raise; define_restr from the real source: a take period without a covered step inside horizon and window yields no row, otherwise "
+        "the right-hand side is the volume prorated by the covered duration. Bounded: take periods incl. asset windows reaching beyond the horizon. Known finding D25b. " + PROOF_NOTE)),
     'C09': dict(level='other', assumptions=['A2', 'A3', 'A5', 'A6'], explanation=(
         "proved: the global variable index does not depend on names (offsets), names are only compared for equality in the functions under "
         "contract, discount factors and restricted grid are rebuilt per asset from its own parameters (set_timegrid, set_restricted_grid: nothing of an "
@@ -64,7 +68,7 @@ META.update({
         "concatenated in interval order; z3 lemmas (window = block of steps); Lean lemmas (uncoupled split is an unsplit optimum; split <= "
         "unsplit under inclusion of the feasible sets). Bounded: split-vs-unsplit scenarios (value, balance at all nodes, per-asset limits, step "
         "numbering, DCF accounting, order books first / last, unsolvable interval). " + PROOF_NOTE)),
-    'C17': dict(level='other', assumptions=['A1', 'A2', 'A3', 'A5', 'A6'], explanation="proved: costs_only returns exactly the cost vector of the full set-up for the classes under contract and the portfolio concatenation; robust target: one epigraph variable, one constraint -c_s@x >= DCF_min per sample after all rows, objective = epigraph variable, reported value under own costs. make_slp is not under contract: bounded block structure + EEV <= V_slp <= wait-and-see on real solves (incl. non-dispatch future variables)."),
+    'C17': dict(level='other', assumptions=['A1', 'A2', 'A3', 'A5', 'A6'], explanation="proved: costs_only returns exactly the cost vector of the full set-up for the classes under contract and the portfolio concatenation; robust target: one epigraph variable, one constraint -c_s@x >= DCF_min per sample after all rows, objective = epigraph variable, reported value under own costs. make_slp from the real source (contracts/slp.py; harness bounds: one mapping row per variable, the present = the first two steps, 1-2 samples; sizes symbolic): the m original variables followed by one block of copies of the future variables per sample (future = step of the variable's first mapping row in the future part of the grid), bounds copied, costs present once / future and sample costs divided by S+1, right-hand sides and type letters repeated per scenario, row block 0 on the original variables, block s on the present columns and the s-th copy; Portfolio.create_cost_samples: k-th vector = costs_only set-up of the k-th sample on the given grid. The mapping of the extended problem is not specified by a contract. Bounded: block structure incl. variables with several mapping rows and boolean flags, EEV <= V_slp <= wait-and-see, = deterministic for coinciding scenarios on real solves (incl. non-dispatch future variables, plants, MIP storages)."),
     'C18': dict(level='other', assumptions=['A1', 'A2', 'A3', 'A5', 'A6'], explanation="proved: the N dual is the dual of the N-class constraint; create_nodal_restr records (step, node) of every nodal row in row order; the portfolio's record lists all rows of type N (structured assets' first); io.extract_output from the real source (contracts/io_output.py; arbitrary mapping satisfying WF_OP, arbitrary result vector, symbolic grid / row / variable / record counts; harness bounds: 1-2 assets with 1-2 nodes, literal names, no internal-variable rows, prices None): the price reported at (step, 'nodal price: ' + node) of every recorded nodal row is minus its dual, no other nodal price cell is set, none at all without duals. Bounded: the same on random portfolios; supergradient inequality on re-optimised portfolios (gapped activity, structured assets)."),
     'C19': dict(level='proof', assumptions=['A2', 'A3', 'A4', 'A5'], explanation=(
         "proved under A4 (pandas date_range: Tick frequency = start + k*delta; anchored: strictly increasing inside [start,end]): root grid, "
@@ -96,9 +100,10 @@ META.update({
         "per step, one / several mapping rows) vs independent scipy LPs with explicit equalities, constant rate within coarse intervals over DST, "
         "are bounded stand-ins, never counted as proved. " + PROOF_NOTE)),
     'C15': dict(level='other', assumptions=['A2', 'A3', 'A5'], explanation=(
-        "proved on the real source (fix_time_window case of the assembly contract): pinned only if in the window, others untouched, costs untouched, "
-        "frame. The converse (every window variable is pinned) needs a first-occurrence argument: bounded scenarios incl. variables spanning several "
-        "steps (own frequency, periodicity) and multi-row variables. " + PROOF_NOTE)),
+        "proved on the real source (fix_time_window case of the assembly contract, window as boolean mask): a variable is pinned only if one of its mapping "
+        "rows lies on a step of the window, every variable with such a row is pinned to the given value (also when only a later row of the variable lies in "
+        "the window), all other bounds and the costs untouched, frame. Bounded: the other window forms (date, index array), re-optimised values, variables "
+        "spanning several steps (own frequency, periodicity), the window handed to the split set-up, plants. " + PROOF_NOTE)),
     'C16': dict(level='other', assumptions=['A2', 'A3', 'A5', 'A6'], explanation=(
         "proved: ScaledAsset.setup_optim_problem LP data for bases with one mapping row per variable. The step from the LP data to 'behaves like the "
         "base with capacities x s/S' is A6 + bounded scenarios. StructuredAsset.setup_optim_problem from the real source: inner set-up on clipped "
